@@ -101,6 +101,28 @@ HsspAnswerOK(pts, k, ref, ans) ==       \* ans: sequence of selected (1-based) i
   /\ \A a, b \in 1..Len(ans) : a # b => ans[a] # ans[b]
   /\ ApproxOK(pts, {ans[a] : a \in 1..Len(ans)}, k, ref)
 
+\* ---------------------------------------------------------------- exact 2-D volume by a sweep (large integer coordinates)
+\* For two objectives and finite coordinates the dominated area is the sum of the rectangles of the front swept by
+\* increasing first coordinate.  ParetoMC checks that it equals the cell count on the lattice instances; it is the oracle
+\* where counting cells is not feasible (coordinates in the thousands).
+RECURSIVE Sweep2D(_, _, _)
+Sweep2D(F, ref, by) ==
+  IF F = {} THEN 0
+  ELSE LET p == CHOOSE q \in F : \A r \in F : q[1] <= r[1] IN
+       (ref[1] - p[1]) * (by - p[2]) + Sweep2D(F \ {p}, ref, p[2])
+HV2D(pts, I, ref) ==
+  LET S == {pts[i] : i \in I}
+      F == {p \in S : ~\E q \in S : Dominates(q, p)}
+  IN  Sweep2D(F, ref, ref[2])
+Best2D(pts, k, ref) ==
+  LET vals == {HV2D(pts, T, ref) : T \in KSubsets(Idx(pts), k)} IN CHOOSE v \in vals : \A w \in vals : w <= v
+Hssp2DAnswerOK(pts, k, ref, ans) ==
+  /\ Len(ans) = k
+  /\ \A a \in 1..Len(ans) : ans[a] \in Idx(pts)
+  /\ \A a, b \in 1..Len(ans) : a # b => ans[a] # ans[b]
+  \* 12/19 = 0.63158 < 1 - 1/e = 0.63212; small factors because TLC integers are 32 bit (areas reach 2e7 here)
+  /\ 19 * HV2D(pts, {ans[a] : a \in 1..Len(ans)}, ref) >= 12 * Best2D(pts, k, ref)
+
 \* ---------------------------------------------------------------- the greedy design (algorithm level)
 \* Plain greedy: repeatedly add the point with the largest hypervolume gain.  Checked in ParetoMC to
 \* meet ApproxOK on every input of the bounded instance (submodularity made concrete).
